@@ -192,6 +192,16 @@ def sweep_rcs(nr, nc, thorough):
     return out
 
 
+def cond_fold_rcs(k):
+    """bootstrap + folds over CONDITIONS under real seeds needs >= 6 distinct drawn condition groups: 8 conditions"""
+    base = {'routine': 'bootcv', 'bootR': True, 'bootP': True, 'cv': 'kfold', 'nCv': 2, 'N': 6, 'kR': 1, 'kP': 2, 'byR': 'subj',
+            'byP': 'cond', 'bootNc': True, 'nM': 3, 'plR': 2, 'plP': 2}
+    rcs = [base, dict(base, bootR=False, byR='index', byP='index', kR=2), dict(base, routine='dual', nM=2, kR=2, N=4),
+           dict(base, routine='dualrand', cv='random', kR=1, kP=3), dict(base, nCv=1, kR=2, byR='grp'),
+           dict(base, routine='crossval', bootR=False, bootP=False, N=1, nCv=1, kR=2, kP=2, byR='grp', byP='index')]
+    return [rcs[i % len(rcs)] for i in range(k)]
+
+
 def _run_chunk(args):
     out = []
     for (idx, rc, const, seed, thorough) in args:
@@ -280,6 +290,8 @@ def record_and_validate(ctx, const, n, thorough, label):
     if const['NC'] <= 4:
         sw = sweep_rcs(const['NR'], const['NC'], thorough)
         jobs += [(n + k, rc, const, ctx.seed, thorough) for k, rc in enumerate(sw + sw)]
+    if const['NC'] >= 8:
+        jobs = [(k, rc, const, ctx.seed, thorough) for k, rc in enumerate(cond_fold_rcs(n))]
     chunks = [jobs[k::NPROC * 4] for k in range(NPROC * 4)]
     with mp.Pool(NPROC) as pool:
         results = [x for ch in pool.map(_run_chunk, [c for c in chunks if c]) for x in ch]
@@ -438,7 +450,8 @@ def run(ctx):
     if not tot.get('var_plain') or not tot.get('var_fixed'):
         raise MachineryError(f'vacuous variance check: {tot}')
     # implementation -> specification
-    groups = [((3, 4), 90), ((3, 6), 70)] if not thorough else [((3, 4), 500), ((3, 6), 400), ((4, 6), 400), ((5, 5), 300)]
+    groups = [((3, 4), 90), ((3, 6), 60), ((3, 8), 6)] if not thorough else \
+        [((3, 4), 400), ((3, 6), 250), ((4, 6), 250), ((5, 5), 200), ((3, 8), 36)]
     nt = 0
     st = {}
     for (nr, nc), n in groups:
